@@ -752,7 +752,7 @@ var (
 	vWatchDeadline time.Time
 	vWatchArmed    bool
 	vWatchOnce     sync.Once
-	vWatchLimit    = 120 * time.Second
+	vWatchLimit    = 240 * time.Second
 )
 
 func vWatchCurrent(property, kind string, caseJSON []byte) {
